@@ -91,3 +91,43 @@ def call_name(n) -> Optional[str]:
         if isinstance(f, ast.Attribute):
             return f.attr
     return None
+
+
+# ----------------------------------------------------------------- local definitions
+def local_defs(fn_node, name: str) -> List[ast.AST]:
+    """Values assigned to the local ``name`` anywhere in the function (no nested defs)."""
+    from ..model import walk_no_nested
+    out = []
+    for n in walk_no_nested(fn_node):
+        if isinstance(n, ast.Assign):
+            for t in n.targets:
+                if isinstance(t, ast.Name) and t.id == name:
+                    out.append(n.value)
+        elif isinstance(n, ast.AnnAssign) and isinstance(n.target, ast.Name) and n.target.id == name and n.value is not None:
+            out.append(n.value)
+        elif isinstance(n, ast.NamedExpr) and n.target.id == name:
+            out.append(n.value)
+    return out
+
+
+def strip_calls(e, names=("float", "int", "str", "bytes")):
+    """Peel representation-changing wrappers: float(x) -> x."""
+    while isinstance(e, ast.Call) and isinstance(e.func, ast.Name) and e.func.id in names and len(e.args) >= 1:
+        e = e.args[0]
+    return e
+
+
+def ordered_stmts(body) -> List[ast.stmt]:
+    """Statements of a body in source order, descending into compound statements (no nested defs)."""
+    out = []
+    for s in body:
+        out.append(s)
+        for fld in ("body", "orelse", "finalbody"):
+            sub = getattr(s, fld, None)
+            if isinstance(sub, list) and sub and isinstance(sub[0], ast.stmt) and not isinstance(
+                    s, (ast.FunctionDef, ast.AsyncFunctionDef, ast.ClassDef)):
+                out.extend(ordered_stmts(sub))
+        if isinstance(s, ast.Try):
+            for h in s.handlers:
+                out.extend(ordered_stmts(h.body))
+    return out
